@@ -105,7 +105,9 @@ func runTreeProp(c *Ctx, which string) {
 		nontrivial := nodes >= 4
 		switch which {
 		case "coverage":
-			nontrivial = nontrivial && bytes.IndexFunc(doc, func(r rune) bool { return r >= 0x80 || r >= '0' && r <= '9' || r >= 'a' && r <= 'z' || r >= 'A' && r <= 'Z' }) >= 0
+			nontrivial = nontrivial && bytes.IndexFunc(doc, func(r rune) bool {
+				return r >= 0x80 || r >= '0' && r <= '9' || r >= 'a' && r <= 'z' || r >= 'A' && r <= 'Z'
+			}) >= 0
 		case "shapes":
 			nontrivial = shaped
 		}
@@ -139,6 +141,14 @@ func runTreeProp(c *Ctx, which string) {
 			orc.Add("spanshyp\t"+hx(doc)+"\t"+blocksExt(doc)+"\t"+blocksFold(doc), "ok", func(got string) {
 				c.report("block-span-theorem-hypothesis-RefDefSpansOK-fails", doc, fam, got, func(x []byte) bool {
 					return c.drv.Ask1("spanshyp\t"+hx(x)+"\t"+blocksExt(x)+"\t"+blocksFold(x)) != "ok"
+				}, nil)
+			})
+		}
+		if which == "coverage" && len(doc) <= 1500 && idx%2 == 0 {
+			// the hypothesis of the block-half theorem drain_coverage (C03): the RefDefCoverOK check never fails along the run
+			orc.Add("coverhyp\t"+hx(doc)+"\t"+blocksExt(doc)+"\t"+blocksFold(doc), "ok", func(got string) {
+				c.report("block-coverage-theorem-hypothesis-RefDefCoverOK-fails", doc, fam, got, func(x []byte) bool {
+					return c.drv.Ask1("coverhyp\t"+hx(x)+"\t"+blocksExt(x)+"\t"+blocksFold(x)) != "ok"
 				}, nil)
 			})
 		}
